@@ -98,6 +98,14 @@ def check(sid, tier="quick", props=None):
                     sig = line.split("signature=", 1)[1].split()[0]
                     break
             res[p] = dict(rc=r.returncode, signature=sig, wall=round(time.time() - t0))
+            rf = os.path.join(SEEDED, "RESULTS.json")
+            try:
+                allres = json.load(open(rf))
+            except Exception:
+                allres = {}
+            allres["%s|%s" % (sid, p)] = dict(seeded=sid, check=p, tier=tier, rc=r.returncode, signature=sig,
+                                              verdict={0: "MISSED", 1: "caught", 2: "inconclusive"}.get(r.returncode, str(r.returncode)))
+            json.dump(allres, open(rf, "w"), indent=1, sort_keys=True)
             print("SEEDED %-28s check=%s rc=%d sig=%s wall=%ds" % (sid, p, r.returncode, sig, time.time() - t0), flush=True)
             if r.returncode not in (0, 1):
                 print(r.stdout[-2500:])
